@@ -200,7 +200,7 @@ func c19RoundTrip(t *rapid.T) {
 	case "mysql":
 		d.escape = '`'
 	default:
-		d.escape = rapid.SampledFrom([]rune{0, '"', '`'}).Draw(t, "escape")
+		d.escape = rapid.SampledFrom([]rune{0, '"', '`', '"', '`', '\'', '´', '«', '“', '＂'}).Draw(t, "escape")
 		d.incr = rapid.Bool().Draw(t, "incr")
 	}
 	pool := simpleNames
